@@ -545,10 +545,19 @@ def writer_facts(repo: Path):
         src = ast.unparse(fns[name])
         if "isinstance(entity, Concatenator)" in src and "entity_handle = entity_handle['Concatenated Data']" in src:
             redirect.append(name)
+    # fetch_handle: `if entity.name == base: return base_handle` (anything that carries the project's name is taken for
+    # the project node) - recorded as the name rule of the model; a guarded test (isinstance ...) switches it off
+    fh = fns.get("fetch_handle")
+    name_rule = None
+    for n in ast.walk(fh):
+        if isinstance(n, ast.If) and "entity.name == base" in ast.unparse(n.test) and len(n.body) == 1 and isinstance(n.body[0], ast.Return):
+            name_rule = ast.unparse(n.test) == "entity.name == base"
+    if name_rule is None:
+        raise Refuse("H5Writer.fetch_handle: the project-node shortcut `if entity.name == base: return base_handle` was not found")
     wd = ast.unparse(fns["write_data_values"])
     comments_wrap = "isinstance(entity, CommentsData)" in wd and "values = {'Comments': values}" in wd
     return {"dispatch": dispatch, "default": default, "skip_keys": skip, "fingerprint": fp, "concatenator_redirect": redirect,
-            "comments_wrap": comments_wrap}
+            "comments_wrap": comments_wrap, "name_rule": name_rule}
 
 
 def branch_routine(body, line):
@@ -743,17 +752,16 @@ def extract(repo: Path):
                 continue
             seen.add(g)
             for e in all_events(funcs[g]):
-                if True:
-                    if e[0] == "call":
-                        r = resolve(c, e[1])
-                        out[e[1]] = r
-                        if r is not None:
-                            stack.append(r)
-                    elif e[0] == "callf":
-                        # static: make sure the function exists in the table
-                        kname, nm = e[1][:-1].split(".")
-                        add_func(classes[kname], nm, "set")
-                        stack.append(e[1])
+                if e[0] == "call":
+                    r = resolve(c, e[1])
+                    out[e[1]] = r
+                    if r is not None:
+                        stack.append(r)
+                elif e[0] == "callf":
+                    # static: make sure the function exists in the table
+                    kname, nm = e[1][:-1].split(".")
+                    add_func(classes[kname], nm, "set")
+                    stack.append(e[1])
         return out
 
     # ---- reads
@@ -846,8 +854,16 @@ def extract(repo: Path):
             for key, attr in amap.items():
                 scalars |= attr_fields(c, attr) or set()
         for l, fs in out.items():
-            if fs and wf["dispatch"].get(l, wf["default"]) != "write_attributes":
-                out[l] = sorted(f for f in fs if f == "_" + l or f not in scalars)
+            routine = wf["dispatch"].get(l, wf["default"])
+            if fs and routine in ("write_array_attribute", "write_data_values"):
+                # these write the one dataset KEY_MAP[label] from the value of the attribute (`entity._<label>` after
+                # the getter ran): what else the getter reads on the way is not written
+                keep = {"_" + l}
+                if l == "values" and "FilenameData" in classes and issubclass(c, classes["FilenameData"]):
+                    keep |= attr_fields(c, "file_name") or set()
+                out[l] = sorted(f for f in fs if f in keep)
+            elif fs and routine != "write_attributes":
+                out[l] = sorted(f for f in fs if f not in scalars)
         return out
 
     def _routes_for(c, labels):
@@ -966,20 +982,9 @@ def extract(repo: Path):
         "funcs": [funcs[k] for k in sorted(funcs)],
         "classes": cls_rows,
         "dispatch": wf["dispatch"], "default_routine": wf["default"], "skip_keys": wf["skip_keys"],
-        "key_map_labels": sorted(KEY_MAP), "update_attribute": ua,
+        "key_map_labels": sorted(KEY_MAP), "update_attribute": ua, "name_rule": wf["name_rule"],
         "out_of_scope": {**OUT_OF_SCOPE, **OUT_OF_SCOPE_QUAL}, "invariants": sorted(INVARIANT_TRUE),
     }
-
-
-def _init_fields(src, c, members):
-    out = set()
-    for k in c.__mro__:
-        if k in members and "__init__" in members[k] and "method" in members[k]["__init__"]:
-            for n in ast.walk(members[k]["__init__"]["method"]):
-                nm = self_attr(n)
-                if nm and isinstance(n.ctx, ast.Store):
-                    out.add(nm)
-    return out
 
 
 def main():
